@@ -35,6 +35,8 @@ def run_case(case):
 			act = 'ValueError'
 		exp = 'ValueError' if case.get('extra_rows') else [[''] + cols] + [[rows[i]] + [format(float(dmat[i, j]), '0.4f') for j in range(nc)] for i in range(nr)]
 		return {'ok': exp == act, 'expected': exp if isinstance(exp, str) else exp[:3], 'actual': act if isinstance(act, str) else act[:3]}
+	if case['kind'] == 'cli_many':
+		return _many_refs_case(case)
 	root = _root()
 	tmp = tempfile.mkdtemp(prefix='c16_')
 	try:
@@ -124,6 +126,43 @@ def run_case(case):
 		shutil.rmtree(tmp, ignore_errors=True)
 
 
+def _many_refs_case(case):
+	"""thousands of (small) reference signatures in a signature file: every cell of every row must be written and correct"""
+	import numpy as np
+	from gambit.kmers import KmerSpec
+	from gambit.metric import jaccarddist
+	from gambit.sigs import SignatureArray, AnnotatedSignatures, dump_signatures
+	tmp = tempfile.mkdtemp(prefix='c16m_')
+	try:
+		rnd = random.Random(case['seed'])
+		ks = KmerSpec(6, 'AT')
+		pool = list(range(4 ** 6))
+		def sig():
+			return np.array(sorted(rnd.sample(pool, rnd.randrange(1, 12))), dtype=ks.index_dtype)
+		qs = [sig() for _ in range(case['nq'])]
+		rs = [sig() for _ in range(case['nr'])]
+		rs[-1] = qs[0].copy()        # the last column holds a zero
+		dump_signatures(os.path.join(tmp, 'q.gs'), AnnotatedSignatures(SignatureArray(qs, ks), [f'q{i}' for i in range(len(qs))]))
+		dump_signatures(os.path.join(tmp, 'r.gs'), AnnotatedSignatures(SignatureArray(rs, ks), [f'r{i}' for i in range(len(rs))]))
+		out = os.path.join(tmp, 'out.csv')
+		st = _cli(['dist', '--no-progress', '-o', out, '--qs', os.path.join(tmp, 'q.gs'), '--rs', os.path.join(tmp, 'r.gs')] + (['-c', str(case['cores'])] if case.get('cores') else []))
+		if st != 'ok':
+			return {'ok': False, 'expected': 'success', 'actual': st}
+		rows = list(csv.reader(open(out, newline='')))
+		bad = []
+		if rows[0] != [''] + [f'r{i}' for i in range(len(rs))]:
+			bad.append('header')
+		for i, q in enumerate(qs):
+			exp = [format(float(jaccarddist(q, r)), '0.4f') for r in rs]
+			got = rows[i + 1][1:] if i + 1 < len(rows) else None
+			if got != exp:
+				j = next((c for c in range(len(exp)) if got is None or c >= len(got) or got[c] != exp[c]), None)
+				bad.append(f'row {i}: first wrong column {j} of {len(exp)}: {None if got is None or j is None or j >= len(got) else got[j]!r} instead of {exp[j] if j is not None else None!r}')
+		return {'ok': not bad, 'expected': f'{len(qs)} x {len(rs)} correct cells', 'actual': bad[:3] or 'ok'}
+	finally:
+		shutil.rmtree(tmp, ignore_errors=True)
+
+
 def bounded(tier, seed):
 	rnd = random.Random(seed)
 	root = _root()
@@ -141,6 +180,8 @@ def bounded(tier, seed):
 		k = rnd.choice([2, 3])
 		cases.append({'kind': 'cli', 'q': rnd.sample(allg, k), 'qgz': [rnd.random() < .3 for _ in range(k)], 'qchan': qc, 'rchan': rc, 'collide': True,
 		              'seed': rnd.randrange(1000), 'cores': rnd.choice([None, 2])})
+	for nr in (999, 1000, 1001, 2999, 6004, 6007) if tier == 'quick' else (999, 1000, 1001, 2999, 3001, 6004, 6007, 6011, 10007, 25013):
+		cases.append({'kind': 'cli_many', 'nq': 2, 'nr': nr, 'seed': nr, 'cores': None})
 	# many more genome files than workers on both sides
 	for qc, rc, cores in (('files', 'files', 1), ('list', 'list', 2), ('files', 'square', 1)):
 		cases.append({'kind': 'cli', 'q': rnd.sample(allg, min(9, len(allg))), 'qchan': qc, 'rchan': rc, 'nr': 7, 'seed': rnd.randrange(1000), 'cores': cores})
